@@ -10,6 +10,7 @@ import (
 
 	"github.com/yaricom/goNEAT/v4/neat"
 	"github.com/yaricom/goNEAT/v4/neat/genetics"
+	neatmath "github.com/yaricom/goNEAT/v4/neat/math"
 	"github.com/yaricom/goNEAT/v4/neat/network"
 )
 
@@ -61,6 +62,21 @@ func compatGenomeOtherWiring(id int, gs []compatGene, scale float64) *genetics.G
 	tr := neat.NewTrait()
 	tr.Id = 1
 	return genetics.NewGenome(id, []*neat.Trait{tr}, []*network.NNode{in, out, hid}, genes)
+}
+
+// compatGenomeModular is compatGenome with one MIMO control gene (a module over two extra hidden nodes) whose innovation
+// number is ctlInn.  The distance counts connection genes by innovation number: a module held by an operand, whatever
+// number it has (above every connection gene, among them, below them), is outside the formula.
+func compatGenomeModular(id int, gs []compatGene, scale float64, ctlInn int64) *genetics.Genome {
+	g := compatGenome(id, gs, scale)
+	h1 := network.NewNNode(3, network.HiddenNeuron)
+	h2 := network.NewNNode(4, network.HiddenNeuron)
+	c := network.NewNNode(5, network.HiddenNeuron)
+	c.ActivationType = neatmath.MultiplyModuleActivation
+	c.Incoming = append(c.Incoming, network.NewLink(1.0, h1, c, false))
+	c.Outgoing = append(c.Outgoing, network.NewLink(1.0, c, h2, false))
+	nodes := append(append([]*network.NNode{}, g.Nodes...), h1, h2)
+	return genetics.NewModularGenome(id, g.Traits, nodes, g.Genes, []*genetics.MIMOControlGene{genetics.NewMIMOGene(c, ctlInn, 7.5, true)})
 }
 
 func replayCompat(args []string) int {
@@ -123,6 +139,31 @@ func replayCompat(args []string) int {
 					}
 					got["linear(a and b on other wirings)"] = gv.VerifCompatLinear(gw, opts)
 					got["fast(b and a on other wirings)"] = gw.VerifCompatFast(gv, opts)
+					// modular operands: control genes (MIMO modules) are not connection genes; their innovation numbers lie above
+					// every connection gene of both operands, just above the operand's own last gene, or below everything
+					var top, lastA, lastB int64
+					for _, x := range c.A {
+						lastA = x.Inn
+					}
+					for _, x := range c.B {
+						lastB = x.Inn
+					}
+					top = lastA
+					if lastB > top {
+						top = lastB
+					}
+					for _, m := range []struct {
+						tag    string
+						ia, ib int64
+					}{{"above all genes", top + 3, top + 2}, {"just above the own last gene", lastA + 1, lastB + 1}, {"below all genes", 0, 0}} {
+						ma, mb := compatGenomeModular(1, c.A, scale, m.ia), compatGenomeModular(2, c.B, scale, m.ib)
+						got["linear(modular a, b), module number "+m.tag] = ma.VerifCompatLinear(gb, opts)
+						got["linear(b, modular a), module number "+m.tag] = gb.VerifCompatLinear(ma, opts)
+						got["fast(modular a, b), module number "+m.tag] = ma.VerifCompatFast(gb, opts)
+						got["fast(a, modular b), module number "+m.tag] = ga.VerifCompatFast(mb, opts)
+						got["linear(modular a, modular b), module number "+m.tag] = ma.VerifCompatLinear(mb, opts)
+						got["fast(modular b, modular a), module number "+m.tag] = mb.VerifCompatFast(ma, opts)
+					}
 					// the distance is a function of the genes and the three coefficients only: every other option
 					// (speciation threshold, population size, mutation rates ...) is outside the formula
 					for _, thr := range []float64{0.25, 1, 3, 1e9} {
@@ -137,7 +178,7 @@ func replayCompat(args []string) int {
 						got["fast(a,b)"+tag] = ga.VerifCompatFast(gb, full)
 					}
 				})
-				rep.Evaluations += 28
+				rep.Evaluations += 46
 				bad := ""
 				if p != "" {
 					bad = "panic: " + p
